@@ -359,6 +359,14 @@ func runCensus(repo string) (map[string][]string, error) {
 				if d.dir != "." {
 					rel = d.dir + "/" + base
 				}
+				// the model takes Go strings to be immutable copies: a file that imports unsafe (zero-copy string / slice
+				// conversions) has to be looked at and listed
+				for _, im := range pkg.Files[fn].Imports {
+					if im.Path.Value == `"unsafe"` {
+						key := d.dir + ":import unsafe"
+						sites[key] = append(sites[key], rel+" ("+fset.Position(im.Pos()).String()+")")
+					}
+				}
 				for _, decl := range pkg.Files[fn].Decls {
 					fd, ok := decl.(*ast.FuncDecl)
 					if !ok || fd.Body == nil {
